@@ -4,17 +4,25 @@
 //
 //	new session|lease <fam> <basehex> <ones> <plen> <grace> <nsubs>  => ok | invalid
 //	alloc s3 <f>          => ok <hex>/<len> | exhausted | error      <f> = 1: the store Put fails
+//	allocmac s3 <f>       => the same through AllocateWithMAC (the DHCP path)
 //	release s3 <f>        => ok | notfound | error                   <f> = 1: the store Delete fails
 //	renew s3 <g><p>       => ok | notfound | error                   flags for the store Get and Put
 //	get s3                => <hex>/<len> | none
 //	owner <hex>/<len>     => s3 | none
 //	stats                 => <allocated> <total>
+//	util                  => <kind> <allocated> <total>   DistributedStats.Utilization: zero | ratio | percent | nan | other
 //	restart <seed>        => ok      abandon the instance (crash), new instance over the same store, Start();
 //	                                 Query enumerates the sorted keys permuted by the Lehmer code of <seed>
 //	tick <seed> <q>       => <epoch> lease mode: AdvanceEpoch + cleanupExpiredFromStore (<q> = 1: its Query fails)
+//	tickrace <seed> s3    => <epoch> <answer of Allocate(s3)>   lease mode: one epochLoop iteration during which another
+//	                                 goroutine calls Allocate(s3) at the moment the store cleanup issues its first Delete
+//	                                 (or right after the tick when there is nothing to delete / the tick holds the lock)
 //	remoteput s3 <hex>/<len> <epoch> => ok <get after> <GetByPrefix of the prefix before> <subscriber whose STORE record
 //	                                    names the prefix before> <current epoch>
 //	remotedel s3          => ok
+//	stress <seed>         => ok | viol <monitor> <detail>   8 goroutines Allocate/AllocateWithMAC/Renew/Release/Get (one of them
+//	                         ticks the epoch in lease mode) on a FRESH allocator + store; afterwards uniqueness, both lookup
+//	                         directions, count and (session mode) store agreement are audited
 //	audit                 => s1=<store>|<get>,s2=…;<unit>=<GetByPrefix>,…
 //	                         store = <hex>/<len>@<epoch> | -   get = <hex>/<len> | -   one reverse row per unit of the pool
 //
@@ -36,6 +44,8 @@ import (
 	"sort"
 	"strconv"
 	"strings"
+	"sync"
+	"time"
 
 	"bngverif/hx"
 
@@ -51,6 +61,8 @@ type store struct {
 	fails []bool // consumed one per store call of the current op
 	seed  uint64 // permutation of the next Query
 	cb    func(key string, value []byte, deleted bool)
+	// beforeDelete, when set, runs once just before the next Delete takes effect
+	beforeDelete func()
 }
 
 var errInjected = errors.New("injected store failure")
@@ -84,6 +96,10 @@ func (s *store) Put(ctx context.Context, key string, value []byte) error {
 }
 
 func (s *store) Delete(ctx context.Context, key string) error {
+	if h := s.beforeDelete; h != nil {
+		s.beforeDelete = nil
+		h()
+	}
 	if s.next() {
 		return errInjected
 	}
@@ -233,6 +249,9 @@ func (g geo) randOp(r *rand.Rand, subs int) string {
 	x := r.Intn(100)
 	switch {
 	case x < 24:
+		if r.Intn(3) == 0 {
+			return "allocmac " + s + " " + flag(r, 20)
+		}
 		return "alloc " + s + " " + flag(r, 20)
 	case x < 35:
 		return "release " + s + " " + flag(r, 25)
@@ -242,12 +261,17 @@ func (g geo) randOp(r *rand.Rand, subs int) string {
 		return "get " + s
 	case x < 50:
 		return "owner " + g.randAddr(r)
-	case x < 53:
+	case x < 52:
 		return "stats"
+	case x < 53:
+		return "util"
 	case x < 62:
 		return fmt.Sprintf("restart %d", r.Intn(720))
 	case x < 71:
 		if g.mode == "lease" {
+			if r.Intn(5) == 0 {
+				return fmt.Sprintf("tickrace %d %s", r.Intn(720), s)
+			}
 			return fmt.Sprintf("tick %d %s", r.Intn(720), flag(r, 10))
 		}
 		return "audit"
@@ -282,7 +306,7 @@ func (comp) Gen(r *rand.Rand, tier string, emit func([]string)) {
 				seq = append(seq, "audit")
 			}
 		}
-		seq = append(seq, "audit", fmt.Sprintf("restart %d", r.Intn(720)), "audit", "stats")
+		seq = append(seq, "audit", fmt.Sprintf("restart %d", r.Intn(720)), "audit", "stats", "util")
 		emit(seq)
 	}
 	// replicated MOVES: a remote put moves a known subscriber to another prefix, a second remote put hands the
@@ -323,6 +347,36 @@ func (comp) Gen(r *rand.Rand, tier string, emit func([]string)) {
 		}
 		seq = append(seq, "audit", fmt.Sprintf("restart %d", r.Intn(720)), "audit", "stats")
 		emit(seq)
+	}
+	// leases kept alive by repeated Allocate / AllocateWithMAC (no Renew, no store failure) across epoch ticks:
+	// record and lease must stay together, also across a restart
+	for i := 0; i < n/10; i++ {
+		g := geos[5+r.Intn(3)]
+		subs := 2 + r.Intn(3)
+		seq := []string{g.newOp(subs)}
+		for k := 1; k <= subs; k++ {
+			seq = append(seq, fmt.Sprintf("alloc s%d 0", k))
+		}
+		for j, m := 0, 2+r.Intn(6); j < m; j++ {
+			seq = append(seq, fmt.Sprintf("tick %d 0", r.Intn(24)))
+			for k := 1; k <= subs; k++ {
+				switch r.Intn(4) {
+				case 0:
+					seq = append(seq, fmt.Sprintf("alloc s%d 0", k))
+				case 1:
+					seq = append(seq, fmt.Sprintf("allocmac s%d 0", k))
+				case 2:
+					seq = append(seq, fmt.Sprintf("renew s%d 00", k))
+				}
+			}
+			seq = append(seq, "audit")
+		}
+		seq = append(seq, fmt.Sprintf("restart %d", r.Intn(24)), "audit", "alloc s1 0", "audit")
+		emit(seq)
+	}
+	for i := 0; i < 10; i++ {
+		g := geos[r.Intn(len(geos))]
+		emit([]string{g.newOp(3), fmt.Sprintf("stress %d", r.Intn(1<<30)), "audit"})
 	}
 	for i := 0; i < nrt; i++ {
 		emit(genRT(r))
@@ -578,6 +632,14 @@ func (r *run) Do(op string) string {
 			return classify(err)
 		}
 		return "ok " + showNet(n, r.g.fam)
+	case "allocmac":
+		r.st.fails = flags(f[2])
+		num, _ := strconv.Atoi(f[1][1:])
+		n, err := r.da.AllocateWithMAC(ctx, f[1], net.HardwareAddr{0x02, 0, 0, 0, byte(num >> 8), byte(num)})
+		if err != nil {
+			return classify(err)
+		}
+		return "ok " + showNet(n, r.g.fam)
 	case "release":
 		r.st.fails = flags(f[2])
 		return classify(r.da.Release(ctx, f[1]))
@@ -599,17 +661,54 @@ func (r *run) Do(op string) string {
 	case "stats":
 		st := r.da.Stats()
 		return fmt.Sprintf("%d %d", st.Allocated, st.Total)
+	case "util":
+		st := r.da.Stats()
+		return fmt.Sprintf("%s %d %d", hx.UtilKind(uint64(st.Allocated), uint64(st.Total), st.Utilization), st.Allocated, st.Total)
 	case "restart":
 		seed, _ := strconv.ParseUint(f[1], 10, 64)
 		return r.start(seed)
 	case "tick":
 		seed, _ := strconv.ParseUint(f[1], 10, 64)
-		e := r.da.AdvanceEpoch()
 		r.st.seed = seed
 		r.st.fails = flags(f[2])
-		r.da.VerifCleanupExpiredFromStore(ctx, e)
+		e := r.da.VerifTick(ctx)
 		r.st.fails = nil
 		return strconv.FormatUint(e, 10)
+	case "tickrace":
+		seed, _ := strconv.ParseUint(f[1], 10, 64)
+		r.st.seed = seed
+		r.st.fails = nil
+		done := make(chan string, 1)
+		started := false
+		racer := func() {
+			started = true
+			go func() {
+				n, err := r.da.Allocate(ctx, f[2])
+				if err != nil {
+					done <- classify(err)
+				} else {
+					done <- "ok " + showNet(n, r.g.fam)
+				}
+			}()
+		}
+		var ans string
+		r.st.beforeDelete = func() {
+			racer()
+			// give the other caller the chance to run; if the tick holds the allocator's lock it cannot
+			select {
+			case ans = <-done:
+			case <-time.After(20 * time.Millisecond):
+			}
+		}
+		e := r.da.VerifTick(ctx)
+		r.st.beforeDelete = nil
+		if !started {
+			racer()
+		}
+		if ans == "" {
+			ans = <-done
+		}
+		return fmt.Sprintf("%d %s", e, ans)
 	case "remoteput":
 		pfx := parseNet(f[2], r.g.fam)
 		ep, _ := strconv.ParseUint(f[3], 10, 64)
@@ -641,6 +740,14 @@ func (r *run) Do(op string) string {
 			r.st.cb(r.key(f[1]), nil, true)
 		}
 		return "ok"
+	case "stress":
+		seed, _ := strconv.ParseInt(f[1], 10, 64)
+		for round := int64(0); round < 20; round++ {
+			if v := r.stressOnce(seed + round*7919); v != "ok" {
+				return v
+			}
+		}
+		return "ok"
 	case "audit":
 		var parts []string
 		for i := 1; i <= r.nsubs; i++ {
@@ -664,6 +771,94 @@ func (r *run) Do(op string) string {
 		return strings.Join(parts, ",") + ";" + strings.Join(rev, ",")
 	}
 	return "badop"
+}
+
+// stressOnce: concurrent callers on a fresh DistributedAllocator over a fresh store (every store call of the allocator
+// happens under its own lock, so the plain map store is safe), then a sequential audit
+func (r *run) stressOnce(seed int64) string {
+	st := &store{data: map[string][]byte{}}
+	cfg := allocator.DistributedConfig{
+		PoolID:      "p",
+		BaseNetwork: fmt.Sprintf("%s/%d", ipOf(r.g.baseNum(), r.g.fam).String(), r.g.ones),
+		PrefixLen:   r.g.plen,
+		Mode:        allocator.PoolModeSession,
+		EpochGrace:  r.g.grace,
+	}
+	lease := r.g.mode == "lease"
+	if lease {
+		cfg.Mode = allocator.PoolModeLease
+	}
+	da, err := allocator.NewDistributedAllocator(cfg, st)
+	if err != nil {
+		return "ok"
+	}
+	ctx := context.Background()
+	const workers, steps, subs = 8, 250, 6
+	var wg sync.WaitGroup
+	for w := 0; w < workers; w++ {
+		wg.Add(1)
+		go func(w int) {
+			defer wg.Done()
+			rr := rand.New(rand.NewSource(seed*131 + int64(w)))
+			for i := 0; i < steps; i++ {
+				sub := fmt.Sprintf("s%d", 1+rr.Intn(subs))
+				switch rr.Intn(10) {
+				case 0, 1, 2:
+					da.Allocate(ctx, sub)
+				case 3:
+					da.AllocateWithMAC(ctx, sub, net.HardwareAddr{2, 0, 0, 0, 0, byte(w)})
+				case 4:
+					da.Renew(ctx, sub)
+				case 5, 6:
+					da.Release(ctx, sub)
+				case 7:
+					da.Get(sub)
+				case 8:
+					da.Stats()
+				default:
+					if lease && w == 0 && rr.Intn(6) == 0 {
+						da.VerifTick(ctx)
+					}
+				}
+			}
+		}(w)
+	}
+	wg.Wait()
+	seen := map[string]string{}
+	held := 0
+	for i := 1; i <= subs; i++ {
+		sub := fmt.Sprintf("s%d", i)
+		lv := "-"
+		if n, ok := da.Get(sub); ok && n != nil {
+			lv = showNet(n, r.g.fam)
+			held++
+			if o, dup := seen[lv]; dup {
+				return fmt.Sprintf("viol unique %s answered to %s and %s after concurrent callers", lv, o, sub)
+			}
+			seen[lv] = sub
+			if o, ok := da.GetByPrefix(n); !ok || o != sub {
+				return fmt.Sprintf("viol reverse reverse lookup of %s is not %s after concurrent callers", lv, sub)
+			}
+		}
+		if !lease {
+			sv := "-"
+			if v, ok := st.data["/allocation/p/"+sub]; ok {
+				var rec allocator.DistributedAllocation
+				if json.Unmarshal(v, &rec) == nil {
+					if _, n, err := net.ParseCIDR(rec.Prefix); err == nil {
+						sv = showNet(n, r.g.fam)
+					}
+				}
+			}
+			if sv != lv {
+				return fmt.Sprintf("viol store-agree %s: record %s, allocator %s after concurrent callers", sub, sv, lv)
+			}
+		}
+	}
+	if s := da.Stats(); s.Allocated != held {
+		return fmt.Sprintf("viol count reported allocated=%d, holders=%d after concurrent callers", s.Allocated, held)
+	}
+	return "ok"
 }
 
 // ---------------------------------------------------------------- round trips
